@@ -57,6 +57,11 @@ def run_once(ctx: Any, shape: Dict[str, Any], sym: Dict[str, Any], duplicate: bo
     zc.record_manager.async_add_listener(listener, None)
     loop.run_ready()
     proto = zc.engine.protocols[0]
+    if shape.get('loopback'):
+        # the instance hears its own multicast one loop iteration after sending it (IP_MULTICAST_LOOP)
+        from vkit.link import Link
+
+        Link(loop, ctx, None, []).attach('10.0.0.1', zc)
     table: Dict[bytes, Any] = {}
 
     def factory(data: bytes, source: Any = None, scope_id: Any = None, now: Any = None) -> Any:
@@ -81,7 +86,8 @@ def run_once(ctx: Any, shape: Dict[str, Any], sym: Dict[str, Any], duplicate: bo
                 table[data] = build
             proto.datagram_received(data, ('10.0.0.9', 5353))
             if duplicate:
-                loop.advance_to(t0 + sym[f'off{i}'] + sym[f'dgap{i}'])
+                if not (shape.get('loopback') and sym[f'dgap{i}'] == 0):  # back to back: the copy is read before anything looped back
+                    loop.advance_to(t0 + sym[f'off{i}'] + sym[f'dgap{i}'])
                 proto.datagram_received(data, ('10.0.0.9', 5353))
         loop.advance_to(t0 + sym['end'])
     finally:
@@ -104,7 +110,9 @@ def make(shape: Dict[str, Any]) -> Any:
         for key in shape.get('sighted', []):
             sym[f'age_{key}'] = ctx.int(f'age_{key}', 0, 20000)  # stays within a quarter of the TTL for the whole run
         for i, ev in enumerate(shape['events']):
-            sym[f'dgap{i}'] = ctx.int(f'dgap{i}', 0, 999)
+            # with loop-back of the instance's own multicast only true back-to-back copies are 'in immediate succession on the same
+            # socket' (later ones may have the instance's own reply between them, which is another datagram on that socket)
+            sym[f'dgap{i}'] = ctx.int(f'dgap{i}', 0, 0 if shape.get('loopback') else 999)
             sym[f'off{i}'] = prev + ctx.int(f'gap{i}', 0 if i == 0 else shape.get('min_gap', 0), 1500)
             prev = sym[f'off{i}'] + sym[f'dgap{i}']
             if ev['kind'] == 'response':
@@ -155,6 +163,10 @@ QUICK = {
     'response-repeat-after-1s': {'events': [rs('P1'), dict(rs('P1'), same_as_previous=True)], 'min_gap': 1001},
     'qu-query-then-response': {'events': [qy((N1, SRV, True)), rs('P2 S2+')], 'sighted': ['SRV']},
     'query-then-response': {'events': [qy((T1, PTR, False)), rs('P2')]},
+    'qu-query-not-recent': {'events': [qy((N1, SRV, True))]},
+    'loopback-qu-query-not-recent': {'events': [qy((N1, SRV, True))], 'loopback': True},
+    'loopback-qm-srv-query': {'events': [qy((N1, SRV, False))], 'loopback': True},
+    'loopback-qm-ptr-query-then-response': {'events': [qy((T1, PTR, False)), rs('P2')], 'loopback': True},
 }
 THOROUGH = {
     'response-then-goodbye-or-refresh': {'events': [rs('P1 S1+'), rs('P1 S1b+')]},
@@ -184,8 +196,8 @@ META = {
         'zeroconf._listener.AsyncListener.datagram_received/_process_datagram_at_time/handle_query_or_defer/_respond_query', 'RecordManager.async_updates_from_response',
         '_ServiceBrowserBase.async_update_records/async_update_records_complete', 'QueryHandler.handle_assembled_query/async_response', 'MulticastOutgoingQueue.*', 'Zeroconf.async_send',
     ],
-    'bounds': {'t0': [5000, 2**40], 'dgap ms': [0, 999], 'gap between datagrams ms': [0, 1500], 'ttl': [0, TTL_MAX], 'datagrams': '<= 3'},
-    'outside': ['QU questions for records not multicast within a quarter TTL (without loop-back of the host\'s own multicast the second copy is multicast again; modelling the loop-back is outside this harness)',
+    'bounds': {'t0': [5000, 2**40], 'dgap ms': '0..999 (0 in the loopback-* shapes)', 'gap between datagrams ms': [0, 1500], 'ttl': [0, TTL_MAX], 'datagrams': '<= 3'},
+    'outside': ['copies arriving after the instance\'s own looped-back reply (loopback-* shapes model the loop-back and deliver the copy back to back: a later copy is no longer "in immediate succession on the same socket")',
                 'wire decoding: datagrams are opaque byte tokens mapped to prebuilt DNSIncoming objects (same content, fresh object per delivery)'],
     'stubs': env.STUBS + ['zeroconf._listener.DNSIncoming replaced by a table from datagram bytes to prebuilt messages'],
     'float_sites': ['const._DNS_PTR_MIN_TTL = 1125.0 (exact)'],
